@@ -366,12 +366,38 @@ def check(prop, tier, base_seed, workers=None):
         if len(seen_classes) > 3:
             break
         plan = item["plan"]
-        best, v, evals = minimise(sim, plan, item["violation"], budget.get("shrink_evals", 400))
-        k = match_known(findings, prop, v, best, sim)
-        path = write_replay(sim, prop, best, v, len(plan["ops"]))
-        ok, out = confirm_in_fresh_process(path)
+        best = v = path = None
+        evals = 0
+        ok = False
+        first = sim.execute(plan)
+        if _violation_matches(first, prop, vclass) is not None:
+            # reproducible in this process: minimise, then confirm in a fresh one
+            best, v, evals = minimise(sim, plan, item["violation"], budget.get("shrink_evals", 400))
+            path = write_replay(sim, prop, best, v, len(plan["ops"]))
+            ok, out = confirm_in_fresh_process(path)
         if not ok:
-            raise HarnessError("replay %s did not reproduce in a fresh process:\n%s" % (path, out))
+            # The violation was observed in a worker but does not reproduce elsewhere:
+            # it depends on memory-address re-use (e.g. a cache keyed by id() of a dead
+            # object).  Search for a heap layout - a function of one integer recorded in
+            # the replay file - under which a fresh process reproduces it exactly.
+            for cand in ([best] if best is not None else []) + [plan]:
+                for pad in range(0, 64):
+                    p2 = dict(cand)
+                    p2["heap_pad"] = pad
+                    path = write_replay(sim, prop, p2, item["violation"], len(plan["ops"]))
+                    ok, out = confirm_in_fresh_process(path)
+                    if ok:
+                        best, v = p2, dict(item["violation"])
+                        v["detail"] = dict(v.get("detail") or {}, note="allocator-dependent: reproduces in a fresh "
+                                           "process under heap_pad=%d; not minimised further" % pad)
+                        break
+                if ok:
+                    break
+        if not ok:
+            raise HarnessError("violation class=%s of run %d was observed in the batch but could not be reproduced "
+                               "in a fresh process (64 heap layouts tried):\n%s"
+                               % (vclass, item["index"], json.dumps(item["violation"].get("detail"), sort_keys=True)[:1500]))
+        k = match_known(findings, prop, v, best, sim)
         if k is not None:
             known_lines.append("KNOWN-FINDING: property=%s %s" % (prop, k["what"]))
             try:
